@@ -506,7 +506,7 @@ Definition no_set (n : N) (o : op) : Prop := match o with OSet (SLoc m) _ => m <
 Definition untouched (n : N) (o : op) : Prop :=
   match o with OSet (SLoc m) _ | OInc (SLoc m) _ => m <> n | _ => True end.
 Definition nonraising (o : op) : Prop :=
-  match o with ORegister _ | OUnregister _ | OConstruct _ _ _ | OUnregisterN _ _ => False | _ => True end.
+  match o with ORegister _ | OUnregister _ | OConstruct _ _ _ | OUnregisterN _ _ | OIncFail _ _ => False | _ => True end.
 
 Ltac opgo := cbn -[N.add N.ltb N.eqb]; repeat split; auto; try discriminate.
 
@@ -522,6 +522,7 @@ Proof.
     cbn -[N.add N.ltb N.eqb ctor_prog]. rewrite pend_lockonly by apply ctor_lockonly. reflexivity.
   - apply nostore_pend, regshape_nostore, regshape_construct.
   - apply nostore_pend, regshape_nostore, regshape_unregister.
+  - destruct inlock; reflexivity.
 Qed.
 
 Lemma op_jumps_in mp rb o : jumps_in (compile_op mp rb o).
@@ -536,6 +537,7 @@ Proof.
     apply jumps_in_lockonly; [apply ctor_lockonly|exact I].
   - apply jumps_in_construct.
   - apply jumps_in_unregister.
+  - destruct inlock; opgo.
 Qed.
 
 Lemma op_acc_ok mp n rb o : no_set n o -> acc_ok n (compile_op mp rb o).
@@ -553,6 +555,7 @@ Proof.
     + apply acc_ok_lockonly; [apply ctor_lockonly|]. simpl; repeat split; auto.
   - apply acc_ok_nostore; [apply regshape_nostore, regshape_construct|apply jumps_in_construct].
   - apply acc_ok_nostore; [apply regshape_nostore, regshape_unregister|apply jumps_in_unregister].
+  - destruct inlock; opgo.
 Qed.
 
 Lemma op_noraise mp rb o : nonraising o -> noraise (compile_op mp rb o).
@@ -581,6 +584,7 @@ Proof.
     repeat constructor.
   - apply regshape_nostore, regshape_construct.
   - apply regshape_nostore, regshape_unregister.
+  - destruct inlock; repeat constructor.
 Qed.
 
 Definition issued_stat_ops (n : N) (ops : list op) : Z := zsum (map (issued_stat n) ops).
@@ -807,6 +811,8 @@ Definition simple_op_w (rb : reg) (o : op) : Prop :=
   | ORemove tb _ | OClear tb | OMulti tb _ => tb < 40
   | ORegister _ | OUnregister _ | OLookup _ | OCollect _ => True
   | OConstruct _ _ _ | OUnregisterN _ _ => True
+  | OIncFail (SLoc _) _ => True
+  | OIncFail (DLoc r _) _ => r < rb
   | _ => False
   end.
 
@@ -838,6 +844,10 @@ Proof.
       * unfold compile_op, labels_prog. rewrite !ctor_false. reflexivity.
   - apply wf_construct.
   - apply wf_unregister_names.
+  - destruct inlock; [|exists 40%nat; reflexivity]. destruct x as [m|r j].
+    + exists 40%nat. destruct mp; destruct (m =? 0) eqn:E; wf_go; rewrite ?E; wf_go.
+    + assert (R1 : (rb =? r) = false) by (apply N.eqb_neq; lia).
+      exists 40%nat. destruct mp; wf_go; rewrite ?R1; wf_go.
 Qed.
 
 Lemma simple_op_w_mono rb rb' o : rb <= rb' -> simple_op_w rb o -> simple_op_w rb' o.
@@ -1139,6 +1149,7 @@ Proof.
     repeat constructor.
   - apply regshape_straight, regshape_construct.
   - apply regshape_straight, regshape_unregister.
+  - destruct inlock; repeat constructor.
 Qed.
 Lemma from_straight mp ops : forall rb, Forall callfree ops -> straight (compile_from mp rb ops).
 Proof.
